@@ -79,7 +79,7 @@ PROPS = {
                      "evaluation = one oracle decision; non-trivial = a step whose accepted operation changed A's multiset while B holds rows over the same strings; distinct by (case, wiring, step)",
                 assumptions=["the gRPC transport of the ctx wiring conveys the network id as request metadata read by the Contextualizer (a server-side context cannot inherit client context values)",
                              "the raw wirings bypass the Mapper, hence namespace validation; they judge Manager / traverser / engine isolation only"]),
-    "C07": dict(test="TestC07", level="exploration", runs=[("", "plain", 16)], timeout=(900, 5400), floor=(2900, 2000),
+    "C07": dict(test="TestC07", level="exploration", runs=[("", "plain", 16), ("race", "race", 4)], race_scale=0.1, timeout=(900, 5400), floor=(2900, 2000),
                 rule="families: iter (6 of 8 cases) = a stored multiset whose matches for one query of a random shape number m in {0,1,2,99,100,101,199,200,201,250}, plus non-matching and volatile rows; the query is listed to the end for every page size in "
                      "{0,1,2,3,50,100,101,1000,m-1,m,m+1} through Manager.GetRelationTuples, REST and gRPC (rotating): concatenation = match multiset, |page| <= effective size, token empty exactly when nothing remains; then up to 4 sizes again while a writer "
                      "(another transport) inserts and deletes other rows between page fetches: stable rows exactly once, volatile rows at most as often as they existed, nothing else; token (1 of 8) = truncated / non-UUID tokens must be client errors on all transports, "
@@ -113,7 +113,7 @@ PROPS = {
     # C05: mode "faults" = statement faults (SQLite triggers on a poison row) + invalid positions + fault-free controls; mode "isolation" = concurrent
     # histories (porcupine + direct oracle) on the WAL database and, labelled, the shared-cache memory DSN; mode "crash" = SIGKILL at the N-th
     # pwrite64/fsync/fdatasync (strace) of a child performing one 6001/201 transact
-    "C05": dict(test="TestC05", level="fault_enumeration", runs=[("faults", "plain", 8), ("isolation", "plain", 8), ("crash", "plain", 4)], timeout=(1200, 7200), floor=(900, 800), ulimit_f_kb=2097152,
+    "C05": dict(test="TestC05", level="fault_enumeration", runs=[("faults", "plain", 8), ("isolation", "plain", 8), ("crash", "plain", 4), ("isolation-race", "race", 4)], race_scale=0.25, timeout=(1200, 7200), floor=(900, 800), ulimit_f_kb=2097152,
                 rule="faults: case = one write request (Manager.Write/Delete/TransactRelationTuples, REST PATCH/PUT/DELETE, gRPC Transact/Delete) with |I| in {1,2,2999,3000,3001,6001} (+7501 for the second uuid-mapping chunk), "
                      "|D| in {0,1,99,100,101,201}, and ONE failure: RAISE(ABORT) or RAISE(FAIL) from a SQLite trigger on a poison row placed in every chunk of the tuple INSERT (3000), tuple DELETE (100) and uuid-mapping INSERT (15000), "
                      "or a nil subject / unknown namespace / unknown subject-set namespace at position {0,1,mid,chunk edge-1,chunk edge,last} of a 6001/201 request; oracle: the request fails and the full database dump is unchanged "
